@@ -129,13 +129,9 @@ fn hoist_u16_from_be2(b: &[u8]) -> (r: u16)
 /// derived `Default` of ToUnicodeMap (`Self::default()`): the empty HashMap
 #[verifier::external_body]
 fn hoist_tounicode_default() -> (r: ToUnicodeMap) ensures r@ == Map::<u16, Seq<char>>::empty() { ToUnicodeMap { inner: HashMap::new() } }
-/// pdf/src/font.rs utf16be_to_string: `char::decode_utf16` over `chunks_exact(2)` collected into a SmallString
-/// (iterator adaptors only; trusted to be the UTF-16BE decoder of the Unicode Standard, D91)
-#[verifier::external_body]
-pub fn utf16be_to_string(data: &[u8]) -> (r: Result<SmallString>)
-    ensures utf16be_text(data@) matches Some(t) ==> (r matches Ok(s) && s@ == t),
-            utf16be_text(data@) is None ==> r is Err,
-{ unimplemented!() }
+/// pdf/src/font.rs utf16be_to_string: the env stub of units/utf16, same file, same contract
+/// (checked in units/utf16: utf16be_to_char_is_d91 -- Kani, real iterator chain, bounded; `map` + `collect` trusted std)
+//@@ INCLUDE utf16/utf16_stub.rs
 /// `s.chars()` collected (R6)
 #[verifier::external_body]
 fn hoist_chars(s: &str) -> (r: Vec<char>) ensures r@ == s@ { s.chars().collect() }
@@ -167,8 +163,8 @@ impl CidRange {
 }
 
 // ------------------------------------------------------------------ specification: UTF-16 (Unicode Standard 3.9, D91)
-pub open spec fn is_high(u: int) -> bool { 0xD800 <= u <= 0xDBFF }
-pub open spec fn is_low(u: int) -> bool { 0xDC00 <= u <= 0xDFFF }
+// is_high, is_low, units_of, text_of, utf16be_text: the spec file of units/utf16 (which checks the real decoder against it)
+//@@ INCLUDE utf16/utf16_spec.rs
 #[verifier::opaque]
 pub open spec fn utf16_units(c: char) -> Seq<u16> {
     if (c as int) < 0x10000 { seq![c as u16] }
@@ -177,22 +173,9 @@ pub open spec fn utf16_units(c: char) -> Seq<u16> {
 pub open spec fn utf16_of(s: Seq<char>) -> Seq<u16> decreases s.len() {
     if s.len() == 0 { Seq::empty() } else { utf16_units(s[0]) + utf16_of(s.skip(1)) }
 }
-// big-endian byte pairs -> code units (an odd trailing byte is dropped: `chunks_exact(2)`)
-pub open spec fn units_of(b: Seq<u8>) -> Seq<u16> decreases b.len() {
-    if b.len() < 2 { Seq::empty() } else { seq![(b[0] as int * 256 + b[1] as int) as u16] + units_of(b.skip(2)) }
-}
 pub open spec fn be_bytes(u: Seq<u16>) -> Seq<u8> decreases u.len() {
     if u.len() == 0 { Seq::empty() } else { seq![(u[0] as int / 256) as u8, (u[0] as int % 256) as u8] + be_bytes(u.skip(1)) }
 }
-pub open spec fn text_of(u: Seq<u16>) -> Option<Seq<char>> decreases u.len() {
-    if u.len() == 0 { Some(Seq::empty()) }
-    else if !is_high(u[0] as int) && !is_low(u[0] as int) {
-        match text_of(u.skip(1)) { Some(t) => Some(seq![(u[0] as int) as char] + t), None => None }
-    } else if is_high(u[0] as int) && u.len() >= 2 && is_low(u[1] as int) {
-        match text_of(u.skip(2)) { Some(t) => Some(seq![(0x10000 + (u[0] as int - 0xD800) * 0x400 + (u[1] as int - 0xDC00)) as char] + t), None => None }
-    } else { None }
-}
-pub open spec fn utf16be_text(b: Seq<u8>) -> Option<Seq<char>> { text_of(units_of(b)) }
 
 // upper-case hexadecimal
 pub open spec fn hexd(d: int) -> char { if d < 10 { (48 + d) as char } else { (55 + d) as char } }
